@@ -32,6 +32,7 @@ type tailCase struct {
 	Before  []int64 `json:"before_ms_before_now"`
 	After   []int64 `json:"after_ms_after_now"`
 	Twin    []int64 `json:"twin_ms_before_now"`
+	Ver     VerCfg  `json:"ver"`
 }
 
 func genTail(rt *rapid.T) tailCase {
@@ -97,7 +98,9 @@ func predTail(c tailCase, o *evid.Obs) error {
 	} else {
 		o.Tag("single-node")
 	}
-	rd, be := newReader(store.db, c.Cluster)
+	tw := Win{From: now - 300*nsSec, To: now}
+	rd, be := newReader(store.db, c.Cluster, c.Ver, tw)
+	o.Tag(c.Ver.tags(tw)...)
 	defer rd.Close()
 	var msg string
 	var terr error
